@@ -1,6 +1,7 @@
 package mempool
 
 import (
+	"bytes"
 	"errors"
 	"fmt"
 	"math/bits"
@@ -145,6 +146,21 @@ func (mp *Pool) containsKey(hash util.Uint256) bool {
 	}
 
 	return false
+}
+
+// SameWitnesses tells whether two transactions carry identical witnesses (the
+// transaction hash does not cover them).
+func SameWitnesses(a, b *transaction.Transaction) bool {
+	if len(a.Scripts) != len(b.Scripts) {
+		return false
+	}
+	for i := range a.Scripts {
+		if !bytes.Equal(a.Scripts[i].InvocationScript, b.Scripts[i].InvocationScript) ||
+			!bytes.Equal(a.Scripts[i].VerificationScript, b.Scripts[i].VerificationScript) {
+			return false
+		}
+	}
+	return true
 }
 
 // HasConflicts returns true if the transaction is already in the pool or in the Conflicts attributes
